@@ -192,7 +192,7 @@ class Run:
         return 1 if self.violations else 0
 
 
-def _tlc_on_chunk(module, cfg, data, workers, cont, coverage, heap, consts=None):
+def _tlc_on_chunk(module, cfg, data, workers, cont, coverage, heap, consts=None, timeout=3000):
     with scratch("tr_") as d:
         tf = os.path.join(d, "traces.json")
         with open(tf, "w") as f:
@@ -203,7 +203,7 @@ def _tlc_on_chunk(module, cfg, data, workers, cont, coverage, heap, consts=None)
             f.write(base + '\nCONSTANT TraceFile = "%s"\n' % tf)
             for k, v in (consts or {}).items():
                 f.write("CONSTANT %s = %s\n" % (k, v))
-        return tlc.run(module, cfg=cf, workers=workers, cont=cont, coverage=coverage, heap=heap)
+        return tlc.run(module, cfg=cf, workers=workers, cont=cont, coverage=coverage, heap=heap, timeout=timeout)
 
 
 def validate_traces(run, module, traces, cfg=None, label="", props=None, extra_data=None, workers=None,
